@@ -46,7 +46,7 @@ def run(ctx):
             gv(sps=[16, 8, 4][i % 3], R=[1e9, 10e9, 2.5e9][i % 3])
 
     SEL = ["ase-only", "thermal-only", "shot-only", "ase-thermal", "ase-shot", "thermal-shot", "all"]
-    for it in range(140 if T else 49):
+    for it in range(700 if T else 49):
         setgv(it)
         fs = gv.fs
         n = rnd.choice([64, 100, 257, 1024])
@@ -104,7 +104,7 @@ def run(ctx):
         meta.append(("call", sel, npol, noisy))
         ctx.case(("call", sel, npol, noisy, it % 3, idark > 0, Fn > 0), {"PD": {"include_noise": shown, "r": r_, "T": Tk, "R_load": RL, "BW": BW, "i_dark": idark, "Fn": Fn, "n": n, "npol": npol}})
     # ------------------------------------------------------------------ laws
-    for it in range(60 if T else 24):
+    for it in range(300 if T else 24):
         setgv(it)
         fs = gv.fs
         n = rnd.choice([64, 65, 300, 1024])
